@@ -479,7 +479,7 @@ class DataFile:
 
     # create a new subtitle if SN changes and we are not in cumulative mode
 
-    if tti.SN is not self.last_sn and tti.CS in (0x00, 0x01):
+    if (tti.SN is not self.last_sn and tti.CS in (0x00, 0x01)) or self.cur_p_element is None:
 
       self.last_sn =  tti.SN
 
